@@ -127,7 +127,7 @@ Proof.
     - apply (crud_step_preserves _ _ _ _ Hr E).
     - intros p a Hin. cbn [with_table g_peers g_table] in *. rewrite (crud_step_pols _ _ _ _ Hpo E).
       apply (Hp p a Hin). }
-  destruct o as [o'|p exp|p im d names|p im names all|p r|].
+  destruct o as [o'|p exp|p im d names|p im names all|p r| | |r|nl asn].
   - destruct o' as [rp nm c|al nm c|nm cs d0 a0|nm al cs d0 a0|nm ss|nm pr al ss|st im0 d0 ns|im0 ns al|im0 ro| | |nl asn];
       cbn [gstep] in H;
       try (match type of H with on_table g (crud_step _ ?ox) = _ => apply (Hgen ox eq_refl H) end).
@@ -182,6 +182,9 @@ Proof.
       destruct Hin as [[-> E]|Hin]; [|apply (Hp q a' Hin)]. inversion E; subst.
       intros x pp Ex Hpp. inversion Ex; subst. cbn [as_pols] in Hpp. apply filter_In in Hpp.
       apply (Hp p old (find_peer_in _ _ _ F) old pp eq_refl (proj1 Hpp)).
+  - cbn [gstep] in H. inversion H; subst. split; assumption.
+  - cbn [gstep] in H. inversion H; subst. split; assumption.
+  - cbn [gstep] in H. inversion H; subst. split; assumption.
   - cbn [gstep] in H. inversion H; subst. split; assumption.
   - cbn [gstep] in H. inversion H; subst. split; assumption.
 Qed.
